@@ -37,7 +37,14 @@ def check_wrapper(ctx, repo, qual, roles, bool_params, rule_prefix="C22"):
             n_states += 1
             exp_final = 1 if has_final else 0
             problems = []
-            if s.outcome == "GeneratorExit":
+            if s.hexc:
+                # an Exception left the except / else plan: Python's try statement would still run the finally clause, once
+                if s.final != exp_final:
+                    problems.append(f"cleanup ran {s.final} time(s) although an exception escaped the {'except' if s.outcome == 'Exception' else 'else'} plan "
+                                    f"(thrown in by a stop / abort, or raised by that plan), expected {exp_final}")
+                if kind != ("raise", "Exception"):
+                    problems.append(f"the exception that escaped the handler plan is not propagated (wrapper ends with {kind})")
+            elif s.outcome == "GeneratorExit":
                 if kind != ("raise", "GeneratorExit"):
                     problems.append(f"a closed wrapper ends with {kind} instead of re-raising GeneratorExit")
                 if s.final or s.exc or s.els or s.pause:
@@ -71,7 +78,7 @@ def check_wrapper(ctx, repo, qual, roles, bool_params, rule_prefix="C22"):
             else:  # the wrapped plan never started
                 if s.final or s.exc or s.els:
                     problems.append("cleanup / except / else ran although the wrapped plan never started")
-            ctx.ob(f"{rule_prefix}.D1-exit-obligations", f"{f.key}:[{ptxt}] plan->{s.outcome} exit {kind if isinstance(kind, str) else kind[1]}",
+            ctx.ob(f"{rule_prefix}.D1-exit-obligations", f"{f.key}:[{ptxt}] plan->{s.outcome}{' handler-plan->Exception' if s.hexc else ''} exit {kind if isinstance(kind, str) else kind[1]}",
                    not problems, "; ".join(problems), nontrivial=True, where=where(f, node.stmt if node.stmt is not None else f.node))
         for s in before_final:
             problems = []
@@ -112,7 +119,8 @@ def run(ctx):
         "GeneratorExit = closed; raises an Exception; raises another BaseException). At every exit: cleanup ran exactly once unless the "
         "wrapper was closed (then no plan is yielded from at all), except/else plans ran exactly when Python's try statement would run "
         "them and before the final plan, the exit kind equals the outcome (respecting auto_raise), `ret` comes from the wrapped plan "
-        "(or the except plan when not re-raising). Not decided: behaviour of the wrapped generators; closing the wrapper while its "
+        "(or the except plan when not re-raising). An Exception escaping the except / else plan (a stop or abort thrown in, or the handler plan failing) still runs the cleanup once and is propagated. "
+        "Not decided: behaviour of the wrapped generators; closing the wrapper while its "
         "except/else/final plan runs (observation O-6).")
     total = 0
     for qual, roles, params in WRAPPERS:
@@ -137,6 +145,8 @@ CLAIM = {
 
 P = "preprocessors.py"
 MUTANTS = [
+    ("cleanup disabled while the except plan runs (seed C22-b)",
+     [(P, "        if except_plan:\n            # it might be better to throw this in, but this is simpler\n            # to implement for now\n            ret = yield from except_plan(e)\n", "        if except_plan:\n            cleanup = False\n            ret = yield from except_plan(e)\n            cleanup = True\n")], "C22.D1"),
     ("finalize_wrapper runs cleanup when closed",
      [(P, "    cleanup = True\n    try:\n        ret = yield from plan\n    except GeneratorExit:\n        cleanup = False\n        raise\n    except BaseException:\n        if pause_for_debug:",
        "    cleanup = True\n    try:\n        ret = yield from plan\n    except GeneratorExit:\n        raise\n    except BaseException:\n        if pause_for_debug:")], "C22.D1"),
